@@ -164,6 +164,17 @@ def _parse_unit(text, base_dir=None):
                     else:
                         ex.closure_repl.append((int(ma.group(1)), ma.group(3), k == "eclosure"))
                     cur = None
+                elif k == "block":
+                    # block `ANCHOR` lifted_ok_as `sig`: the brace block that follows ANCHOR (e.g. `let x = `) becomes the
+                    # function `sig { let __blk = <block text>; Ok(__blk) }`, so `?` / `return Err(..)` inside keep their meaning
+                    ma = re.match(r"`(.*)`\s+(lifted_ok_as|replaced_by)\s+`(.*)`\s*$", rest)
+                    if not ma:
+                        raise ValueError("bad block directive: %r" % l2)
+                    if ma.group(2) == "lifted_ok_as":
+                        ex.lift_block = (ma.group(1), ma.group(3))
+                    else:  # the block is verified separately (lifted in another extract); here it is replaced by a call
+                        ex.block_repl = (ma.group(1), ma.group(3))
+                    cur = None
                 elif k == "strip_logs":
                     ex.strip_logs = True
                     cur = None
@@ -342,6 +353,26 @@ def _find_expr_closures(text):
     return res
 
 
+def _block_after(ex, text, anc):
+    """(open, close) offsets of the brace block that directly follows the unique anchor text"""
+    if text.count(anc) != 1:
+        raise LostAnchor("%s: block anchor %r occurs %d times, expected 1" % (ex.anchor, anc, text.count(anc)))
+    msk = mask(text)
+    bo = msk.find("{", text.index(anc) + len(anc))
+    if bo < 0 or msk[text.index(anc) + len(anc):bo].strip():
+        raise LostAnchor("%s: no brace block right after %r" % (ex.anchor, anc))
+    depth, k = 0, bo
+    while k < len(msk):
+        if msk[k] == "{":
+            depth += 1
+        elif msk[k] == "}":
+            depth -= 1
+            if depth == 0:
+                break
+        k += 1
+    return bo, k
+
+
 def transform(ex, src):
     """Apply T1..T6 to the item named by ex.anchor in Source src.  Returns (text, record)."""
     it = src.find(ex.anchor)
@@ -350,7 +381,19 @@ def transform(ex, src):
               "lines": [src.line_of(it.start), src.line_of(it.body_close)],
               "sha256": sha256_text(orig), "transformations": []}
     text = orig
-    if ex.lift:
+    if getattr(ex, "block_repl", None):
+        anc, rep = ex.block_repl
+        bo, k = _block_after(ex, text, anc)
+        record["transformations"].append("T7 block after %r (verified separately as a lifted function) replaced by %r" % (anc, rep))
+        text = text[:bo] + rep + text[k + 1:]
+    if getattr(ex, "lift_block", None):
+        anc, lsig = ex.lift_block
+        bo, k = _block_after(ex, text, anc)
+        record["lines"] = [src.line_of(it.start + bo), src.line_of(it.start + k)]
+        record["sha256"] = sha256_text(text[bo:k + 1])
+        record["transformations"].append("T7 block after %r lifted to `%s { let __blk = <block>; Ok(__blk) }`; free variables become parameters" % (anc, lsig))
+        text = lsig + " {\n\t\tlet __blk = " + text[bo:k + 1] + ";\n\t\tOk(__blk)\n\t}"
+    elif ex.lift:
         # T7: the n-th closure of the item becomes a named function with the given signature; its body text is unchanged
         n, lsig = ex.lift
         cl = _find_expr_closures(text) if ex.lift_expr else _find_closures(text)
